@@ -46,6 +46,11 @@ def make_case(G, i):
             K0, K = ('G', cyc), G.shuffled_polygon(cyc)
         f, cls = G.flat_vs_body(fk, K0)
         return (f, K, cls) if ka in FLATS else (K, f, cls)
+    if (ka, kb) == ('G', 'G') and R.random() < 0.4:
+        # coplanar polygon pairs (incl. an edge of one through a vertex of the other): the richest cell for the argument-order clause
+        A, B, cls = C03.make_case(G, C03.TEMPLATES.index('coplanar') + len(C03.TEMPLATES) * 4 * R.randrange(1000))
+        if C03.ok_size(A) and C03.ok_size(B):
+            return A, B, cls
     for _ in range(50):
         A, B, cls = C03.make_case(G, R.randrange(10 ** 6))
         if (A[0], B[0]) == (ka, kb) and C03.ok_size(A) and C03.ok_size(B):
